@@ -851,6 +851,7 @@ class Model(object):
         funcs = list(self.all_functions())
         direct = {}
         callees = {}
+        callees_exact = {}
         stats = {"calls": 0, "exact": 0, "byname": 0}
         for f in funcs:
             exc = set()
@@ -864,6 +865,7 @@ class Model(object):
                     exc.add("<reraise>")
             direct[f] = exc
             cs = set()
+            cse = set()
             ltypes = self.local_types(f)
             for node in ast.walk(f.node):
                 if isinstance(node, ast.Call):
@@ -873,6 +875,8 @@ class Model(object):
                         stats["exact" if exact else "byname"] += 1
                     for t in targets:
                         cs.add(t)
+                        if exact:
+                            cse.add(t)
                 # properties: self.x where x is a property of the class -> call
                 if isinstance(node, ast.Attribute) and f.cls is not None:
                     rc = self.receiver_class(f, node.value, ltypes)
@@ -880,7 +884,9 @@ class Model(object):
                         lk = rc.lookup(node.attr)
                         if lk and node.attr in lk[0].properties:
                             cs.add(FuncRef(lk[0].module, lk[0], lk[1]))
+                            cse.add(FuncRef(lk[0].module, lk[0], lk[1]))
             callees[f] = cs
+            callees_exact[f] = cse
         may = dict((f, set(direct[f])) for f in funcs)
         changed = True
         while changed:
@@ -890,15 +896,16 @@ class Model(object):
                     if c in may and not may[c] <= may[f]:
                         may[f] |= may[c]
                         changed = True
-        self._summ = {"may_raise": may, "callees": callees, "direct": direct, "stats": stats}
+        self._summ = {"may_raise": may, "callees": callees, "callees_exact": callees_exact, "direct": direct,
+                      "stats": stats}
         return self._summ
 
     def may_raise_validation(self, fref):
         s = self.summaries()["may_raise"].get(fref, set())
         return bool(s & set(self.VALIDATION_EXC))
 
-    def reachable_from(self, fref):
-        s = self.summaries()["callees"]
+    def reachable_from(self, fref, exact=False):
+        s = self.summaries()["callees_exact" if exact else "callees"]
         seen = {fref}
         todo = [fref]
         while todo:
